@@ -120,7 +120,7 @@ def code_to_spec(ctx, dutils, ncases):
             ctx.violation("var2h:exception", repr(e), {"ts": ts, "vs": vs, "P": P, "rain": rain, "maxgap": maxgap, "unit": unit, "tz": tz})
             continue
         rec = {"ts": ts, "vs": vs, "P": P, "rain": rain, "maxgap": maxgap, "unit": unit, "tz": tz or "",
-               "out": [to_rat(v, dmax=5000) for v in out.values], "first": first_tick(out, day),
+               "out": [to_rat(v, dmax=100000) for v in out.values], "first": first_tick(out, day),
                "argsame": bool(np.array_equal(se.values, v0, equal_nan=True))}
         recs.append(rec)
         ctx.count({k: rec[k] for k in ("ts", "vs", "P", "rain", "maxgap")}, True)
